@@ -46,14 +46,19 @@ struct TableModel {
 	// whether the object owns a period array: not observable through a safe
 	// getter, learnt from the ledger. -1 unknown, 0 no, 1 yes
 	int periods = -1;
+	// a table built by the stacking constructor has no extents array at all
+	// (lower_extent/upper_extent would dereference null): such a state is
+	// captured without touching the extent getters
+	bool has_extents = true;
 
 	static TableModel empty() { return TableModel(); }
 
 	uint64_t ncoeffs() const { uint64_t n = 1; for (auto a : naxes) n *= a; return populated ? n : 0; }
 
 	// ---- capture through public getters (the object must be in a readable state)
-	template <class T> static TableModel capture(const T &t) {
+	template <class T> static TableModel capture(const T &t, bool with_extents = true) {
 		TableModel m;
+		m.has_extents = with_extents;
 		m.ndim = t.get_ndim();
 		m.populated = m.ndim != 0;
 		for (uint32_t i = 0; i < m.ndim; i++) {
@@ -63,8 +68,10 @@ struct TableModel {
 			m.knots.emplace_back(k, k + nk);
 			m.naxes.push_back(t.get_ncoeffs(i));
 			m.strides.push_back(t.get_stride(i));
-			m.extents.push_back(t.lower_extent(i));
-			m.extents.push_back(t.upper_extent(i));
+			if (with_extents) {
+				m.extents.push_back(t.lower_extent(i));
+				m.extents.push_back(t.upper_extent(i));
+			}
 		}
 		if (m.populated) {
 			uint64_t n = m.ncoeffs();
@@ -103,6 +110,7 @@ struct TableModel {
 		}
 		if (coeff.size() != o.coeff.size()) return "ncoeffs";
 		for (size_t i = 0; i < coeff.size(); i++) if (!same_float(coeff[i], o.coeff[i])) return "coeff";
+		if (populated && has_extents != o.has_extents) return "extents";
 		if (extents.size() != o.extents.size()) return "extents";
 		for (size_t i = 0; i < extents.size(); i++) if (!same_double(extents[i], o.extents[i])) return "extents";
 		if (with_aux) {
@@ -114,7 +122,7 @@ struct TableModel {
 		}
 		return "";
 	}
-	template <class T> std::string compare(const T &t, bool with_aux = true) const { return diff(capture(t), with_aux); }
+	template <class T> std::string compare(const T &t, bool with_aux = true) const { return diff(capture(t, has_extents || !populated), with_aux); }
 
 	// what splinetable::operator== computes (orders, axis lengths, knots and
 	// coefficients compared by value: a NaN never equals anything)
@@ -185,6 +193,9 @@ struct TableModel {
 	// the previous model of the same object for everything that did not change
 	void inherit(const TableModel &prev) {
 		if (populated && prev.populated && ndim == prev.ndim && periods < 0) periods = prev.periods;
+		inherit_aux(prev);
+	}
+	void inherit_aux(const TableModel &prev) {
 		aux_slack.assign(aux.size(), 0);
 		std::vector<bool> used(prev.aux.size(), false);
 		for (size_t i = 0; i < aux.size(); i++)
@@ -204,7 +215,7 @@ struct TableModel {
 		for (uint32_t i = 0; i < ndim; i++) {
 			size_t j = perm[i];
 			m.order[i] = order[j]; m.naxes[i] = naxes[j]; m.knots[i] = knots[j];
-			m.extents[2 * i] = extents[2 * j]; m.extents[2 * i + 1] = extents[2 * j + 1];
+			if (has_extents) { m.extents[2 * i] = extents[2 * j]; m.extents[2 * i + 1] = extents[2 * j + 1]; }
 		}
 		uint64_t s = 1;
 		for (uint32_t i = ndim; i-- > 0;) { m.strides[i] = s; s *= m.naxes[i]; }
@@ -230,8 +241,10 @@ struct TableModel {
 			b.push_back(8 * d);               // knot pointers
 			b.push_back(8 * d);               // nknots
 			for (uint32_t i = 0; i < ndim; i++) b.push_back(8 * (knots[i].size() + 2 * (size_t)order[i]));
-			b.push_back(8 * d);               // extent pointers
-			b.push_back(16 * d);              // extents
+			if (has_extents) {
+				b.push_back(8 * d);           // extent pointers
+				b.push_back(16 * d);          // extents
+			}
 			if (with_periods) b.push_back(8 * d);
 			b.push_back(4 * (size_t)ncoeffs());
 			b.push_back(8 * d);               // naxes
